@@ -1906,3 +1906,12 @@ Example ex_race :
   map e_res (snd (crun (fun _ => 0%Z) (cinit [[QGet [[49%Z]]]; [QGet [[49%Z]]; QDel [[49%Z]]]]) [0; 1; 1; 0; 1]%nat)) =
   [RId 0; RId 0; RBool true].
 Proof. vm_compute. reflexivity. Qed.
+
+(* the main statement, from the empty vector *)
+Lemma vec_refines_map_lemma (H0 : Z) (hadd : Z -> str -> Z) (haddb : Z -> Z -> Z) (names : list str)
+      (cstr : list (str * (str -> str))) :
+  NoDup names -> forall ops, Forall op_wf ops ->
+  let '(rs, w') := run H0 hadd haddb names cstr init_world ops in
+  spec_ok names cstr init_sworld ops rs = true /\
+  Rw H0 hadd haddb names w' (snd (spec_run names cstr init_sworld ops)).
+Proof. intros ND ops Wf. apply (run_refines H0 hadd haddb names cstr ND ops init_world init_sworld (Rw_init H0 hadd haddb names) Wf). Qed.
